@@ -3,7 +3,7 @@
 (* instants lie 1 s .. 4 years ahead, every placement of initialize/enable/disable/refresh/cleanup/   *)
 (* calendar update/zone change/wall adjustment between at most MaxMoves clock movements.               *)
 EXTENDS Alarm, TLC
-CONSTANTS MaxMoves, CfgSel
+CONSTANTS MaxMoves, CfgSel, StartSel
 VARIABLE n
 mvars == <<vars, n>>
 D0 == 19358                                   \* 2023-01-01, a Sunday
@@ -17,7 +17,8 @@ AllCfgs == [
   leap    |-> [kind |-> "cron", S |-> {0}, M |-> {0}, H |-> {0}, D |-> {29}, Mo |-> {2}, W |-> Full],
   yearly  |-> [kind |-> "cron", S |-> {0}, M |-> {0}, H |-> {0}, D |-> {1}, Mo |-> {3}, W |-> Full],
   daily   |-> [kind |-> "cron", S |-> {0, 30}, M |-> {0}, H |-> {0, 12}, D |-> 1..31, Mo |-> 1..12, W |-> Full] ]
-Starts == {<<D0, 0, 0>>, <<D0, 86399, 995>>}
+AllStarts == <<<<D0, 0, 0>>, <<D0, 86399, 995>>>>
+Starts == {AllStarts[i] : i \in StartSel}
 \* clock movements: <<dt, skew>> and "to target + ms" <<ms, skew>>
 Moves == {<<<<0, 1000>>, 0>>, <<<<1, 0>>, 0>>, <<<<50, 0>>, 0>>}
 TMoves == {<<-1, 0>>,          \* one millisecond before the instant: the timer must not be due
